@@ -443,8 +443,19 @@ func (e *Engine) opNewBatch(c *cursor) *Violation {
 		return v
 	}
 	created := e.discoverNew(e.S)
+	for _, h := range created {
+		if h.IsZero() {
+			v := e.viol("handle", op, "after NewBatch(%d) the zero entity is listed by Query(All())", op.Count)
+			v.Also = append(v.Also, "batch-diff")
+			return v
+		}
+	}
 	if len(created) != op.Count {
-		return e.viol("batch-diff", op, "NewBatch(%d) created %d entities", op.Count, len(created))
+		// one creation call, another number of new alive entities: the batch differs from the singles (C08) and the
+		// alive count from creations minus removals (C02)
+		v := e.viol("batch-diff", op, "NewBatch(%d) created %d entities", op.Count, len(created))
+		v.Also = append(v.Also, "alive-count")
+		return v
 	}
 	for _, sh := range e.Shadows {
 		if sh.Kind == "fresh" || sh.Kind == "load" {
